@@ -44,6 +44,9 @@ MODULES = {
             "graphs": {"fs128": {"module": "MC_Lfo", "cfg": "Graph_Lfo.cfg", "target": "lfo"}}},
 }
 
+MODULES["utils"] = {"trace_spec": "Trace_Utils", "trace_cfg": "Trace_Utils.cfg", "graphs": {}}
+_UTILS_MC = ("utils", "MC_Utils", "MC_Utils.cfg", QT)
+
 # the generic phase accumulator on its own, one trace configuration per width (the widths are
 # constants of the specification); the four smallest are also enumerated by TLC and replayed
 PACC_WIDTHS = [(4, 2), (6, 3), (5, 5), (5, 0), (8, 3), (12, 12), (16, 4), (24, 8), (24, 10), (28, 10)]
@@ -186,6 +189,14 @@ for _p in ("C10", "C12", "C03"):
     PROPS[_p]["graphs"] = PROPS[_p].get("graphs", []) + _PACC_GR
     PROPS[_p]["traces"] = PROPS[_p]["traces"] + _PACC_TR_FEW
 PROPS["C17"]["traces"] = PROPS["C17"]["traces"] + [("pacc24_10", "ops", QT), ("pacc28_10", "ops", QT), ("pacc4_2", "ops", QT)]
+
+# the numeric helpers (Utils / Trace_Utils): interpolation is what makes the table read-outs continuous (C03, C12),
+# ilog_2 sizes the index field of both accumulators (C01, C10), fabs / is_almost decide whether the glide honours a
+# set_time call (C14)
+for _p, _drv in (("C03", "lerp"), ("C12", "lerp"), ("C01", "ilog"), ("C10", "ilog"), ("C14", "fabs"), ("C14", "almost")):
+    PROPS[_p]["mc"] = PROPS[_p]["mc"] + ([_UTILS_MC] if _UTILS_MC not in PROPS[_p]["mc"] else [])
+    PROPS[_p]["traces"] = PROPS[_p]["traces"] + [("utils", _drv, QT)]
+PROPS["C17"]["traces"] = PROPS["C17"]["traces"] + [("utils", "almost", QT), ("utils", "lerp", QT), ("utils", "ilog", QT)]
 
 # unbounded roll-over law of the 24-bit accumulator (Apalache, inductive invariant)
 _PA_IND = ("phaseacc-ind", "apalache/PhaseAccInd.tla",
